@@ -87,7 +87,8 @@ SPEC = {
                  "C13_withelements_active", "C13_withelements_alternates", "C13_withelements_closed_after_teardown",
                  "C13_withelements_in_protocol", "C13_skeleton_list_inner_insertValue", "C13_skeleton_set_WithElements",
                  "C13_skeleton_set_Decode", "C13_skeleton_event_WasTriggered", "C13_skeleton_variable_LogUpdates",
-                 "C13_event_trace_ok", "C13_directed_set_logs_ok", "C13_decode_is_not_a_writer_witness", "C13_withvalue_in_protocol"],
+                 "C13_event_trace_ok", "C13_directed_set_logs_ok", "C13_decode_is_not_a_writer_witness", "C13_withvalue_in_protocol",
+                 "C13_fresh_elements_stale_remove_noop", "C13_recycled_element_witness"],
     "trusted_base": [
         "hand-written protocol model Hive/Model/Reactive.lean (+ ReactiveInst.lean) of ds/reactive variable_impl.go / set_impl.go / "
         "event_impl.go / utils.go, tied by (a) regenerated synchronisation skeletons stated as theorems, (b) differential execution of "
@@ -121,7 +122,8 @@ SPEC = {
                 "sequential differential (Set Add/AddAll/Delete/DeleteAll/Apply/Compute/Replace diffs and subscriber folds over a 5-element "
                 "universe, Variable Set/Compute/DefaultTo, Event Trigger, OnUpdate with/without initial trigger, unsubscribe, every subscription variant incl. "
                 "WithElements and LogUpdates, the update-id counter); directed schedules (gated callbacks, goroutine statuses compared with the model's step function); "
-                "stress with 4-8 goroutines per round plus crowd / walk / twin / barrier rounds (concurrent unsubscriptions of neighbours while a writer snapshots), "
+                "stress with 4-8 goroutines per round plus crowd / walk / twin / barrier rounds (concurrent unsubscriptions of neighbours while a writer snapshots) "
+                "and window rounds (a subscriber parked between registration and initial invocation through the verif hook VerifOnUpdateWindow while a writer changes the object), "
                 "per-subscription logs stamped by an atomic logical clock, judged by drv_c13 and by an independent Go oracle.",
         "note": "Trusted: Lean kernel; the hand-written model (atomicity = lock-protected sections, opaque non-reentrant callbacks); the Go scheduler only "
                 "samples schedules in the tie. Fixed defect: reactive Set.Replace reported all-new as added and all-old as deleted (036bec1).",
